@@ -38,3 +38,21 @@ pub trait ParamStream {
             r is Pending ==> final(self).parked() == Some(old(cx).spec_waker()),
             final(self).delivered() == (old(self).delivered() || (r is Ready && r->Ready_0 is Some));
 }
+// the batched flavour: an item is the batch of diffs of one source update (a transaction), emittable one after the other
+pub open spec fn prefixes_fit<T>(ds: Seq<VectorDiff<T>>, s: Seq<T>) -> bool
+    decreases ds.len()
+{
+    if ds.len() == 0 { s.len() < usize::MAX } else { prefixes_fit(ds.drop_last(), s) && apply_all(ds, s).len() < usize::MAX }
+}
+pub trait BatchStream<T> {
+    spec fn state(&self) -> Seq<T>;
+    spec fn ended(&self) -> bool;
+    spec fn parked(&self) -> Option<Waker>;
+    fn poll_next(&mut self, cx: &mut Context<'_>) -> (r: Poll<Option<Vec<VectorDiff<T>>>>)
+        ensures
+            final(cx).spec_waker() == old(cx).spec_waker(),
+            r is Pending ==> final(self).parked() == Some(old(cx).spec_waker()) && final(self).state() == old(self).state(),
+            r is Ready && r->Ready_0 is None ==> final(self).ended() && final(self).state() == old(self).state(),
+            r is Ready && r->Ready_0 is Some ==> all_emittable(r->Ready_0->Some_0@, old(self).state()) && final(self).state() == apply_all(r->Ready_0->Some_0@, old(self).state())
+                && prefixes_fit(r->Ready_0->Some_0@, old(self).state());
+}
